@@ -213,6 +213,10 @@ def h_literal_types(eng):
         eng.prove(type(u._units["meter"]) in (int, ntype) and u._units["meter"] == 2, f"integer-exponent:{ntype.__name__}")
         q = ureg.parse_expression("3 meter")
         eng.prove(type(q.magnitude) is (int if ntype is float else ntype), f"integer-literal:{ntype.__name__}")
+        # every spelling of an integer literal that the tokenizer accepts (digit groups, leading zeros)
+        for lit_, val in (("1_000", 1000), ("10_000_000_000_000_001", 10**16 + 1), ("0", 0), ("1_0", 10)):
+            for how, got in (("parse_expression", ureg.parse_expression(f"{lit_} meter").magnitude), ("Quantity", ureg.Quantity(f"{lit_} meter").magnitude), ("bare", ureg.parse_expression(lit_)), ("ParserHelper", ParserHelper.from_string(f"{lit_} meter", ntype).scale)):
+                eng.prove(type(got) is (int if ntype is float else ntype) and got == val, f"integer-literal:{lit_}:{how}:{ntype.__name__}")
         q = ureg.parse_expression("2.5 meter")
         eng.prove(type(q.magnitude) is ntype, f"decimal-literal:{ntype.__name__}")
         q = ureg.parse_expression("1e-3 second")
@@ -473,6 +477,17 @@ def cases(tier, seed):
         for m in re.finditer(r"(?<=\)) \* (?=[a-d])", src):
             jux.append([src[: m.start()] + src[m.end() :], src])
     jux = rnd.sample(jux, min(len(jux), 3000 if big else 500))
+    # targeted: a parenthesised group or a unicode exponent in the middle, followed directly by a
+    # name, after every binary operator (the implicit product must not capture the left operator)
+    for op1 in ("+", "-", "*", "/", "//"):
+        for inner in ("b", "-b", "b + c", "b * c", "b / c"):
+            jux.append([f"a {op1} ({inner})d", f"a {op1} ({inner}) * d"])
+            jux.append([f"a {op1} ({inner})d / c", f"a {op1} ({inner}) * d / c"])
+    for sup, n in (("²", 2), ("³", 3), ("⁻¹", -1), ("⁻²", -2)):
+        for op1 in ("*", "/", "//", "+", "-"):
+            jux.append([f"a {op1} b{sup}d", f"a {op1} b**({n}) * d"])
+            jux.append([f"a{sup}d {op1} c", f"a**({n}) * d {op1} c"])
+        jux.append([f"a{sup}b", f"a**({n}) * b"])
     juxp = rnd.sample(juxp, min(len(juxp), 1000 if big else 200))
     for i in range(0, len(jux), 40):
         out.append(Case("H07.a-jux", f"{i:05d}:{jux[i][0]}", M, "h_expression", {"exprs": jux[i : i + 40]}, opts={"max_paths": 4000, "query_timeout_ms": 20000}, validate=2, weight=5.0))
